@@ -13,6 +13,7 @@ E = {
     'bfs': 'E2 explicit-state breadth-first search over the real object (mc/explore.py:bfs)',
     'choice': 'E3 stateless choice-point exploration with deviation bounding (mc/explore.py:explore_choices)',
     'procs': 'E4 enumeration of process-level nondeterminism in fresh interpreters (mc/procs.py)',
+    'seqdiff': 'E5 sequence differential: all short call sequences in one process state vs a pristine state (mc/seqdiff.py)',
 }
 
 # pid -> (category, engine, technique, level text, level note, design ref)
@@ -80,14 +81,33 @@ T = {
 }
 
 
+SEQDIFF = {'C03', 'C05', 'C06', 'C08', 'C10', 'C11', 'C12', 'C16', 'C17', 'C18'}
+EXTRA = {
+    'C04': ' Larger structured vectors (n up to 48) and the flag as given on the real command line are covered by directed families.',
+    'C05': ' Directed families: column names containing the label name, 300- and 40 000-category columns, code-magnitude grid for the coverage heuristic.',
+    'C07': ' End-to-end families: batches through compute_batch_ranking (growing candidate lists, Constant heuristic) and the complete task with a trailing partial batch.',
+    'C08': ' Every small file is also run through the real command-line entry point with relative paths and without a final newline.',
+    'C09': ' Worker-local state = every module-level container of every outrank module; completion orders of the unordered API and pending polls are explored as further schedule deviations.',
+    'C13': ' End-to-end family through the task and the command line (annotation on/off, thresholds below/above the batch size).',
+    'C14': ' The sketches are also driven the way the pipeline feeds them (compute_cardinalities over several batches).',
+    'C16': ' The ob-vw source is exercised end to end (namespace map + gzipped file -> streaming loop).',
+    'C17': ' 24 real pairwise 3MR tasks are judged against dictionaries rebuilt from pairwise_ranks.tsv.',
+    'C19': ' One generator object is also reused across calls (non-initial states).',
+    'C20': ' One generator object is also reused across calls; float data sets for the noise family.',
+}
+
+
 def main():
     checks, na, serves = [], [], {k: [] for k in E}
     for pid in sorted(T):
         cat, eng, tech, text, note, ref = T[pid]
+        text = text + EXTRA.get(pid, '') + (' A sequence differential (mc/seqdiff.py) runs every sequence of <= 2-3 calls in one process state against a pristine state.' if pid in SEQDIFF else '')
         if not os.path.exists(os.path.join(VERIF, 'mc', 'checks', pid.lower() + '.py')):
             na.append({'property_id': pid, 'reason': 'check not built yet in this revision of /verif (planned, see DESIGN.md section 3); not claimed until it exists'})
             continue
         serves[eng].append(pid)
+        if pid in SEQDIFF:
+            serves['seqdiff'].append(pid)
         checks.append({
             'property_id': pid,
             'quick_cmd': f'./check {pid} --tier quick',
@@ -110,7 +130,7 @@ def main():
             'source_commits': hooks_commits,
             'add_only': True,
         },
-        'engines': [{'name': k, 'path': {'enum': 'mc/enum.py', 'bfs': 'mc/explore.py', 'choice': 'mc/explore.py', 'procs': 'mc/procs.py'}[k],
+        'engines': [{'name': k, 'path': {'enum': 'mc/enum.py', 'bfs': 'mc/explore.py', 'choice': 'mc/explore.py', 'procs': 'mc/procs.py', 'seqdiff': 'mc/seqdiff.py'}[k],
                      'serves_properties': v, 'kind_free_text': E[k]} for k, v in serves.items()],
         'checks': checks,
         'not_applicable': na,
